@@ -762,6 +762,22 @@ def skip_kind(recs, i, only_snvs):
     return "duplicate-position"
 
 
+def pedigree_families(ped_lines, phased_samples):
+    """{sample: sorted members of its family}, from the PED file and the samples phased in the run, independently of the
+    implementation: a PED line is a relationship iff child, father and mother are all known and all phased in this run
+    (whatshap ignores the others with a warning); families = connected components of these relationships; every other
+    sample is a family of its own"""
+    ps = set(phased_samples)
+    group = {s: {s} for s in ps}
+    for _, ch, fa, mo in ped_lines:
+        if "0" in (ch, fa, mo) or not {ch, fa, mo} <= ps:
+            continue
+        g = group[ch] | group[fa] | group[mo]
+        for x in g:
+            group[x] = g
+    return {s: sorted(g) for s, g in group.items()}
+
+
 def run_pipe(ctx, batch, case):
     from harness.gen import sim, c03_pipe as P, c04_records as R
     p = case["params"]
@@ -775,10 +791,12 @@ def run_pipe(ctx, batch, case):
         ctx.evaluated()
         ctx.dist("pipe_layout", p["layout"]); ctx.dist("pipe_n_contigs", p["n_contigs"]); ctx.dist("pipe_tag", p["tag"])
         ctx.dist("pipe_cap", p["cap"])
+        if p.get("mixed"):
+            ctx.dist("pipe_mixed_family_plus", "+".join(sorted(f"{e['kind']}:{e['where']}" for e in p["mixed"]["extras"])))
         ctx.dist("pipe_options", "".join(ch for ch, k in (("D", "distrust"), ("H", "include_hom"), ("G", "no_genetic"), ("S", "only_snvs"),
                                                            ("C", "chrom_sel"), ("s", "sample_sel"), ("L", "read_list"), ("I", "ignore_rg"),
                                                            ("M", "merge_reads"), ("V", "phased_vcf_input"), ("N", "dup_names"),
-                                                           ("d", "decor"), ("R", "rephase")) if p.get(k)) or "-")
+                                                           ("d", "decor"), ("R", "rephase"), ("X", "mixed")) if p.get(k)) or "-")
         if rc != 0:
             last = (se.strip().splitlines() or ["?"])[-1][:200]
             if "duplicate read name" in se and p["dup_names"]:
@@ -820,12 +838,26 @@ def check_pipe(ctx, batch, case, sc, samples, rin, rout, trace, stderr, read_row
     fam_json = {}
     n_sets_total, split_any, dropped_any = 0, False, False
     n_prephased_skipped, prephased_hit = 0, False
+    # pedigree mode is decided from the COMMAND LINE and the PED file (never from the trace's own flag / master block):
+    # --ped without --no-genetic-haplotyping, and the sample's family (relationships among the samples phased) has > 1 member
+    exp_fams = pedigree_families(sc["ped_lines"] if sc["use_ped"] else [], sc["sel_s"] or samples)
+    genetic_opt = sc["use_ped"] and not p["no_genetic"]
+    singles_done = set()           # names of single-sample families already processed in this run (any chromosome)
     for ti, t in enumerate(trace):
         fam, ids, chrom = t["family"], t["numeric_sample_ids"], t["chromosome"]
         acc = t["accessible_positions"]
         selected = [t["candidates"][s]["selected"] for s in fam]
         flat = [rd for rs in selected for rd in rs]
-        multi = len(fam) > 1 and t["genetic_haplotyping"]
+        exp_fam = exp_fams.get(fam[0], [fam[0]])
+        if sorted(fam) != exp_fam:
+            ctx.fail(f"{chrom}: samples {fam} are phased as one family, the PED file and the phased samples give {exp_fam}", case,
+                     key="family-not-pedigree-component")
+        multi = len(exp_fam) > 1 and genetic_opt
+        if len(exp_fam) == 1:
+            singles_done.add(fam[0])
+        elif sc["use_ped"]:
+            ctx.dist("pipe_ped_family_after_single_family", ("genetic:" if genetic_opt else "no-genetic:") +
+                     ("none" if not singles_done else "+".join(sorted({"before" if x < min(fam) else "after" for x in singles_done}))))
         # ---- the reads used for phasing = the selected reads of all members (merge_readsets)
         if sorted(map(_read_key, t["all_reads"])) != sorted(map(_read_key, flat)):
             ctx.fail(f"{chrom} {fam}: the read set handed to the solver is not the union of the members' selected reads", case,
@@ -867,10 +899,15 @@ def check_pipe(ctx, batch, case, sc, samples, rin, rout, trace, stderr, read_row
         reads = [[rd["sample_id"], [v[0] for v in rd["variants"]]] for rd in flat]
         sidx = {s: samples.index(s) for s in fam}
         het = None
-        ocase = {"accessible": acc, "reads": reads, "distrust": t["distrust_genotypes"], "fam_size": len(fam),
-                 "genetic": t["genetic_haplotyping"], "homozygous": t["homozygous_positions"], "superreads": supers}
+        ocase = {"accessible": acc, "reads": reads, "distrust": t["distrust_genotypes"], "fam_size": len(exp_fam),
+                 "genetic": genetic_opt, "homozygous": t["homozygous_positions"], "superreads": supers}
+        hom_in = {}                 # position -> a family member that is homozygous there (input genotypes / super-reads)
         if t["distrust_genotypes"]:
             master, het = oc_params(ocase)
+            for sid, vars_ in supers:
+                for v in vars_:
+                    if v[1] == v[2] and v[1] in (0, 1):
+                        hom_in.setdefault(v[0], next((m for m in fam if ids[m] == sid), "?"))
         elif multi:
             master = []
             for i, r in enumerate(rin):
@@ -878,11 +915,38 @@ def check_pipe(ctx, batch, case, sc, samples, rin, rout, trace, stderr, read_row
                     for s in fam:
                         gt = r["calls"][sidx[s]].get("GT")
                         if gt is not None and gt[0] is not None and None not in gt[0] and len(set(gt[0])) == 1:
-                            master.append(r["pos"]); break
+                            master.append(r["pos"]); hom_in[r["pos"]] = s; break
             master = sorted(set(master))
         else:
             master = None
         left = bfs_leftmost(acc, spec_blocks(acc, reads, master, het))
+        # ---- the pedigree clause of the property, evaluated directly: the read components (used reads only, no master block)
+        #      that touch a variant homozygous in some family member carry ONE phase set in every member's output
+        if multi and master:
+            read_comp = bfs_leftmost(acc, spec_blocks(acc, reads, None, het))
+            touched = {}
+            for q in master:
+                if q in read_comp:
+                    touched.setdefault(read_comp[q], q)
+            ctx.dist("pipe_ped_read_components_touching_hom_variant", min(len(touched), 5))
+            for s in fam:
+                sets = {}
+                for i, r in enumerate(min_rout):
+                    if rin[i]["chrom"] != chrom or i not in elig or r["pos"] not in read_comp or read_comp[r["pos"]] not in touched:
+                        continue
+                    ph = decode_call(r["calls"][sidx[s]], r["format"])
+                    if ph is not None:
+                        sets.setdefault(ph[0], []).append(r["pos"] + 1)
+                if len(sets) > 1:
+                    (s1, q1), (s2, q2) = sorted(sets.items(), key=lambda kv: kv[1][0])[:2]
+                    c1, c2 = read_comp[q1[0] - 1], read_comp[q2[0] - 1]
+                    ctx.fail(f"pedigree mode (--ped, family {fam}, genetic haplotyping on): sample {s}: {chrom}:{q1[0]} lies in a read "
+                             f"component touching {chrom}:{touched[c1] + 1} (homozygous in {hom_in.get(touched[c1])}), {chrom}:{q2[0]} in one "
+                             f"touching {chrom}:{touched[c2] + 1} (homozygous in {hom_in.get(touched[c2])}); the components have to be merged "
+                             f"into one phase set but the calls carry phase sets {s1} and {s2}"
+                             f"{' (single-sample families ' + str(sorted(singles_done)) + ' were processed before)' if singles_done else ''}",
+                             case, key="pedigree-components-not-merged")
+                    break
         # read list rows of this family: phase set = 1 + leftmost position connected to the read's first variant
         if rows_here is not None:
             inv = {v: k for k, v in ids.items()}
@@ -1068,6 +1132,12 @@ def run(ctx):
         shutil.rmtree(ctx.workdir(), ignore_errors=True); return
     for _, c in ctx.corpus():
         run_case(ctx, batch, c)
+    if os.environ.get("C03_ONLY_MIXED"):        # development aid: only the family-plus-singles stream (after the corpus)
+        from harness.gen import c03_pipe as P
+        for _ in range((12 if ctx.quick else 120) * ctx.scale):
+            run_pipe(ctx, batch, P.gen_case(rng, mixed=True))
+        batch.flush()
+        shutil.rmtree(ctx.workdir(), ignore_errors=True); return
     n = (2200 if ctx.quick else 30000) * ctx.scale
     for _ in range(n):
         do_fc(ctx, batch, gen_fc_case(rng))
@@ -1097,6 +1167,12 @@ def run(ctx):
     # re-phasing: the input is the output of an earlier run (PS / HP on every record kind, also on the kinds this run skips)
     for _ in range((14 if ctx.quick else 140) * ctx.scale):
         run_pipe(ctx, batch, P.gen_case(rng, rephase=True))
+    batch.flush()
+    # --ped runs whose VCF holds a real family PLUS samples that are in no trio (VCF column not in the PED, founder-only /
+    # half PED line, trio dropped through --sample or a missing column), named before and after the family's representative,
+    # on >= 2 chromosomes, the family having >= 2 read components that each touch a variant homozygous in a member
+    for _ in range((12 if ctx.quick else 120) * ctx.scale):
+        run_pipe(ctx, batch, P.gen_case(rng, mixed=True))
     batch.flush()
     G.assert_overlay_in_use(ctx.overlay)
     shutil.rmtree(ctx.workdir(), ignore_errors=True)
